@@ -92,7 +92,11 @@ Take ==
     /\ IF pc = LastStep THEN out' = Append(out, pkts[cur]) /\ cur' = cur + 1 ELSE UNCHANGED <<out, cur>>
     /\ UNCHANGED <<pkts, cuts, delivered>>
 
-Next == Recv \/ Take
+\* recv() on a socket that has nothing to hand out *yet* (EAGAIN / EWOULDBLOCK): the reader is told to try again.  Nothing changes - a
+\* stuttering step - and the reader asks again; the harness injects such answers between the segments of every case
+Again == /\ pc # "eof" /\ Avail < Need /\ delivered < Total /\ UNCHANGED vars
+
+Next == Recv \/ Take \/ Again
 Spec == Init /\ [][Next]_vars /\ WF_vars(Next)
 
 ---------------------------------------------------------------------------
